@@ -356,15 +356,39 @@ def mem_dtype(ctx: Ctx) -> None:
                 continue
             fl, cfg = flow_of(repo, f), cfg_of(f)
             at = cfg.node_of(c)
-            exprs = [e]
-            if isinstance(e, ast.Name):
-                exprs = [s_.value for s_ in fl.rdefs(e.id, at) if s_.value is not None]
-            out_dtype, out_chunks = unparse(dt.elts[0]), unparse(ch.elts[0])
-            for ex in exprs:
+            def alias(x, at_):
+                # follow simple local aliases (`out_dtype = dtype`) to what they name
+                for _ in range(4):
+                    if not isinstance(x, ast.Name):
+                        break
+                    ds = fl.rdefs(x.id, at_)
+                    if len(ds) == 1 and ds[0].kind == "assign" and isinstance(ds[0].value, (ast.Name, ast.Attribute)):
+                        x, at_ = ds[0].value, ds[0].node
+                    else:
+                        break
+                return unparse(x)
+
+            # the declaration, with local names expanded to their definitions (transitively)
+            exprs, seen, work = [], set(), [(e, at)]
+            while work:
+                ex, at_ = work.pop()
+                exprs.append((ex, at_))
+                for nm in [x for x in ast.walk(ex) if isinstance(x, ast.Name) and isinstance(x.ctx, ast.Load)]:
+                    for s_ in fl.rdefs(nm.id, at_):
+                        if s_.kind == "assign" and s_.value is not None and id(s_.value) not in seen and len(seen) < 40:
+                            seen.add(id(s_.value))
+                            work.append((s_.value, s_.node))
+            out_dtype, out_chunks = alias(dt.elts[0], at), unparse(ch.elts[0])
+            done = set()
+            for ex, at_ in exprs:
                 for am in [x for x in ast.walk(ex) if isinstance(x, ast.Call) and f"{A.UTILS}.array_memory" in repo.callee_quals(x, f) and len(x.args) == 2]:
+                    if id(am) in done:
+                        continue
+                    done.add(id(am))
                     if out_chunks not in unparse(am.args[1]):
                         continue  # memory of something else (an input chunk, a copy chunk)
                     n += 1
-                    ok = unparse(am.args[0]) == out_dtype
-                    ctx.ob(f, am, ok, f"`{unparse(am, 60)}` sizes chunks of this operation's output grid; its dtype must be the output dtype `{out_dtype}`" + ("" if ok else f" — it uses `{unparse(am.args[0])}`: a widening reduction keeps reduced chunks that are larger than declared"), sel=f"dtype:{unparse(am, 50)}")
+                    got = alias(am.args[0], at_)
+                    ok = got == out_dtype
+                    ctx.ob(f, am, ok, f"`{unparse(am, 60)}` sizes chunks of this operation's output grid; its dtype must be the output dtype `{out_dtype}`" + ("" if ok else f" — it uses `{got}`: a widening reduction keeps reduced chunks that are larger than declared"), sel=f"dtype:{unparse(am, 50)}")
     ctx.need(n >= 1, "no array_memory(<dtype>, <output chunks>) declaration found")
